@@ -58,7 +58,7 @@ def sofFields (data : Bytes) : Option (Nat × Nat × Nat × Nat) :=
     else some (p, h, w, nc)
 
 /-- lossless parseSOF55: NewTraits + initCodingParameters (ComputeCodingParameters three times) -/
-def sof55 (st : St) (data : Bytes) : H St :=
+def sof55Core (st : St) (data : Bytes) : H St :=
   match sofFields data with
   | none => .stop st .err
   | some (p, h, w, nc) =>
@@ -66,6 +66,11 @@ def sof55 (st : St) (data : Bytes) : H St :=
     | some s => .stop st (.panic s)
     | none => .cont { st with maxVal := maxValOf p, bitDepth := p, width := w, height := h, comps := nc,
                               allocs := st.allocs ++ [ctxAlloc] }
+
+/-- lossless parseSOF55 with the guard of commit 72b8b5a: a second frame header is rejected
+    (`dec.components != 0`; the length check in front of it gives the same outcome) -/
+def sof55 (st : St) (data : Bytes) : H St :=
+  if st.comps ≠ 0 then .stop st .err else sof55Core st data
 
 /-- lossless parseLSE -/
 def lse (st : St) (data : Bytes) : H St :=
@@ -135,10 +140,14 @@ def header (bs : Bytes) : St × Res :=
 /-! ## near-lossless decoder: parameters are derived at SOS, once NEAR is known -/
 
 /-- nearlossless parseSOF55: only stores -/
-def nsof55 (st : St) (data : Bytes) : H St :=
+def nsof55Core (st : St) (data : Bytes) : H St :=
   match sofFields data with
   | none => .stop st .err
   | some (p, h, w, nc) => .cont { st with maxVal := maxValOf p, bitDepth := p, width := w, height := h, comps := nc }
+
+/-- nearlossless parseSOF55 with the guard of commit 72b8b5a -/
+def nsof55 (st : St) (data : Bytes) : H St :=
+  if st.comps ≠ 0 then .stop st .err else nsof55Core st data
 
 /-- nearlossless parseLSE: only stores (MAXVAL when > 0) -/
 def nlse (st : St) (data : Bytes) : H St :=
